@@ -456,6 +456,20 @@ class Interp:
                 return fr.locals.get(0, ("tuple", []))
             elif k == "SwitchInt":
                 v = self.operand(fr, t["discr"])
+                if not isinstance(v, int) and isinstance(v, tuple) and v[0] in ("sym", "symop") and t["dty"] != "bool":
+                    # `match n { 0 => .., _ => .. }` on a symbolic integer: the oracle is asked arm by arm
+                    nxt, known = t["otherwise"], True
+                    for val, tgt in t["targets"]:
+                        r_ = self.oracle("Eq", v, val)
+                        if r_ is None:
+                            known = False
+                            break
+                        if r_:
+                            nxt = tgt
+                            break
+                    if known:
+                        bb = nxt
+                        continue
                 if not isinstance(v, int):
                     raise Undecided("branch on undecided value %r at %s" % (v, body.where(bb, None)))
                 v &= (1 << INT_BITS.get(t["dty"], 128)) - 1 if INT_BITS.get(t["dty"], 128) < 128 else v
